@@ -341,6 +341,22 @@ impl<'a, F: IVP> SolOut for DefaultSolOut<'a, F> {
                                 }
                             }
 
+                            // Without t_eval, a pending first output x0 +/- |first_step| that lies before the event is
+                            // still due (it would have been reported by the sampling below had the run gone on)
+                            if self.t_eval.is_none() && !self.first_output_done {
+                                if let (Some(h0), Some(interp)) = (self.first_step, interpolant) {
+                                    let direction = (*x - xold).signum();
+                                    let target = self.x0 + direction * h0.abs();
+                                    if direction * (event_t - target) > 0.0 && direction * (target - xold) >= 0.0 {
+                                        let mut yi = vec![0.0; y.len()];
+                                        interp.interpolate(target, &mut yi);
+                                        self.t.push(target);
+                                        self.y.push(yi);
+                                        self.first_output_done = true;
+                                    }
+                                }
+                            }
+
                             // Add the terminal event point to the output (unless it is the last sample itself)
                             if self.t.last() != Some(&event_t) {
                                 self.t.push(event_t);
